@@ -11,6 +11,10 @@ a congruence fact that the abstract interpretation derives on every feasible pat
 * `offset()`  (DateTime::offset):   Some(e) with e = epoch + ms exactly; None only through the overflowing checked_add
 * `durationSince()` (DateTime::duration_since): Some(d) with d = self.epoch - other.epoch exactly; None only on overflow
 
+* `toMilliseconds/toSeconds/toMinutes/toHours/toDays` (Duration::to_*): the result is the stored milliseconds divided, truncating
+  toward zero, by exactly 1 / 1000 / 60 000 / 3 600 000 / 86 400 000 (a quotient relation composed through the helper calls:
+  trunc(trunc(x/a)/b) = trunc(x/(ab)) for positive constants)
+
 DAY is 24*60*60*1000 by definition of the documented unit (milliseconds), not read from the code.
 The statements are properties of the *result*, not of how it is computed: `rem_euclid`, a sign case split on the remainder or on the
 epoch, `?` or `map`, by-value or by-reference receivers all satisfy them (selftest variants). When the engine cannot follow a
@@ -152,3 +156,38 @@ def check(chk, facts):
                else "%s: %s" % (name, "; ".join(sorted(set(bad)) or ["no value-returning path whose payload could be followed"])),
                where=f.where(), fn=f.name, sample={"paths": seen, "bad": sorted(set(bad))})
         _none_paths(chk, rule, f, a, name, leaf)
+
+
+UNITS = (("to_milliseconds", 1), ("to_seconds", 1000), ("to_minutes", 60 * 1000), ("to_hours", 60 * 60 * 1000), ("to_days", DAY))
+DMOD = "cedar_policy_core::extensions::datetime::Duration::"
+
+
+def check_units(chk, facts):
+    rule = "C07.EXACT"
+    for name, unit in UNITS:
+        f = get_fn(chk, facts, rule, DMOD + name)
+        if f is None:
+            continue
+        try:
+            a = interval.Analysis(f, resolver=facts.fn).run()
+        except interval.Unsupported as e:
+            chk.lost(rule, DMOD + name, "no longer analysable by the relational interval engine (%s): the exact value is undecided" % e)
+            continue
+        bad = []
+        for st, vk in a.rets:
+            o = _origin_of(a, st, 1, "ms")
+            q = st.quot.get(vk)
+            form = _named(a, st, vk)
+            if unit == 1 and q is None:
+                got = ("ms" if o and form == ({o: 1}, 0) else str(form), 1)
+            elif q is not None:
+                qf = a.form_named(st, q[0])
+                got = ("ms" if o and qf == ({o: 1}, 0) else str(qf), q[1])
+            else:
+                got = (str(form), None)
+            if got != ("ms", unit):
+                bad.append("result = %s / %s (truncating)" % got if got[1] else "result = %s, not a truncating quotient of the stored milliseconds" % got[0])
+        chk.ob(rule, name + ":unit", not bad and a.rets,
+               "%s: the result is the stored milliseconds / %d, truncating toward zero, on every path" % (name, unit) if not bad and a.rets
+               else "%s: %s; expected ms / %d truncating toward zero" % (name, "; ".join(sorted(set(bad)) or ["no returning path"]), unit),
+               where=f.where(), fn=f.name, sample={"unit": unit, "bad": sorted(set(bad))})
